@@ -8,8 +8,8 @@ Driver op of C18.
 * token word `start:stop:wordLike:hasMeta:prep:det:L:C` — flags `0`/`1`; `L` = `chars.to_lower()`
   as comma-separated code points (`-` = empty); `C` = canonical spelling (`n` = none, `-` = empty)
 -/
-namespace Harper.Driver
-open Harper Harper.Proto Harper.Title
+namespace Harper.Driver.Title
+open Harper Harper.Proto Harper.Title Harper.Driver.Ignore
 
 def bool? (w : String) : Option Bool :=
   if w == "1" then some true else if w == "0" then some false else none
@@ -37,4 +37,4 @@ def handleTc (args : List String) : String :=
     | _, _ => "bad-op"
   | _ => "bad-op"
 
-end Harper.Driver
+end Harper.Driver.Title
